@@ -49,10 +49,11 @@ const (
 	timeout
 	dynBad // EvAny whose Payload is a channel: json reports an unsupported *dynamic* type
 	dynOk  // EvAny with an encodable payload (must persist, also after a dynBad publish)
+	late   // the append ignores its context, outlives the persistence timeout and succeeds: not a failure
 	nModes
 )
 
-var names = []string{"ok", "reject", "unencodable", "timeout", "unencodable-dynamic", "ok-dynamic"}
+var names = []string{"ok", "reject", "unencodable", "timeout", "unencodable-dynamic", "ok-dynamic", "ok-after-the-timeout"}
 
 // progStore follows a script: one entry per Append call.
 type progStore struct {
@@ -77,6 +78,9 @@ func (s *progStore) Append(ctx context.Context, ev *eventbus.Event) (eventbus.Of
 	case timeout:
 		vrt.Recv(ctx.Done()) // WithPersistenceTimeout(1ms): always expires (virtual time under the scheduler)
 		return "", ctx.Err()
+	case late:
+		vrt.Sleep(4 * time.Millisecond) // virtual time: longer than the persistence timeout
+		return s.mem.Append(context.Background(), ev)
 	}
 	return s.mem.Append(ctx, ev)
 }
@@ -92,6 +96,10 @@ type tcase struct {
 	LateSet   bool  `json:"handler_set_at_runtime"`
 	Reentrant bool  `json:"error_handler_publishes"` // the error handler publishes a follow-up event on the same bus
 	HookAfter bool  `json:"hook_after_store"`        // New(WithStore(s), ..., WithBeforePublishContext(h)): a context hook given after the store
+	// SetAfter: the error handler is installed with SetPersistenceErrorHandler only after the
+	// preloaded publishes were made: 1 = on a bus built without one, 2 = replacing one given
+	// as an option (which must then not be called any more)
+	SetAfter int `json:"handler_set_after_publishes,omitempty"`
 }
 
 func (t tcase) String() string {
@@ -99,7 +107,11 @@ func (t tcase) String() string {
 	for _, x := range t.Pattern {
 		p = append(p, names[x])
 	}
-	return fmt.Sprintf("pattern=[%s] errorHandler=%v preloaded=%d lateSet=%v reentrant=%v hookAfterStore=%v", strings.Join(p, ","), t.Handler, t.Preloaded, t.LateSet, t.Reentrant, t.HookAfter)
+	sa := ""
+	if t.SetAfter != 0 {
+		sa = fmt.Sprintf(" handlerSetAfterPublishes=%d", t.SetAfter)
+	}
+	return fmt.Sprintf("pattern=[%s] errorHandler=%v preloaded=%d lateSet=%v reentrant=%v hookAfterStore=%v%s", strings.Join(p, ","), t.Handler, t.Preloaded, t.LateSet, t.Reentrant, t.HookAfter, sa)
 }
 
 type errCall struct {
@@ -137,7 +149,7 @@ func runCaseBody(t tcase) (out []string) {
 			script = append(script, ok)
 		default:
 			script = append(script, b)
-			if b != ok && reentrant {
+			if b != ok && b != late && reentrant {
 				script = append(script, ok) // the follow-up event published by the error handler
 			}
 		}
@@ -156,8 +168,12 @@ func runCaseBody(t tcase) (out []string) {
 			}
 		}
 	}
-	if t.Handler && !t.LateSet {
+	oldCalls := 0
+	if t.Handler && !t.LateSet && t.SetAfter == 0 {
 		opts = append(opts, eventbus.WithPersistenceErrorHandler(eh))
+	}
+	if t.SetAfter == 2 {
+		opts = append(opts, eventbus.WithPersistenceErrorHandler(func(any, reflect.Type, error) { oldCalls++ }))
 	}
 	if t.HookAfter {
 		opts = append(opts, eventbus.WithBeforePublishContext(func(context.Context, reflect.Type, any) {}))
@@ -182,6 +198,9 @@ func runCaseBody(t tcase) (out []string) {
 		eventbus.Publish(bus, Ev{ID: id})
 		wantStored = append(wantStored, stored{id, eventbus.EventType(Ev{})})
 	}
+	if t.SetAfter != 0 {
+		bus.SetPersistenceErrorHandler(eh)
+	}
 	got, got2, errs = nil, nil, nil
 	var lastOff eventbus.Offset
 	if evs, _, _ := st.mem.Read(context.Background(), eventbus.OffsetOldest, 0); len(evs) > 0 {
@@ -198,7 +217,7 @@ func runCaseBody(t tcase) (out []string) {
 		default:
 			ev = Ev{ID: id, Bad: b == unenc}
 		}
-		fails := b != ok && b != dynOk
+		fails := b != ok && b != dynOk && b != late
 		noAttempt := b == unenc || b == dynBad
 		callsBefore, errsBefore, gotBefore := st.calls, len(errs), len(got)
 		func() {
@@ -283,6 +302,9 @@ func runCaseBody(t tcase) (out []string) {
 			lastOff = evs[len(evs)-1].Offset
 		}
 	}
+	if oldCalls != 0 {
+		bad("a persistence error handler that was replaced with SetPersistenceErrorHandler was still called %d times", oldCalls)
+	}
 	return out
 }
 
@@ -322,6 +344,9 @@ func cases(thorough bool) []tcase {
 						if pre == 0 {
 							l = append(l, tcase{Pattern: p, Handler: hd, Reentrant: true})
 							l = append(l, tcase{Pattern: p, Handler: hd, HookAfter: true})
+						} else if length <= 2 {
+							l = append(l, tcase{Pattern: p, Handler: hd, Preloaded: pre, SetAfter: 1})
+							l = append(l, tcase{Pattern: p, Handler: hd, Preloaded: pre, SetAfter: 2})
 						}
 					}
 				}
